@@ -36,7 +36,7 @@ func (env *Env) hasCancelSourceAbove(i int) bool {
 
 // checkTimeoutLayer: C07. Called after the execution returned and a grace period elapsed.
 func (env *Env) checkTimeoutLayer(layer int, apps []*App) string {
-	L := int64(env.Stack[layer].Limit)
+	L := max(int64(env.Stack[layer].Limit), 0) // a zero or negative limit has elapsed at once
 	var evTimes []int64
 	for _, e := range env.Events {
 		if e.Policy == layer && e.Name == "timeout" {
